@@ -27,6 +27,7 @@ def run(v, workdir, replay):
     v.need("event_id_reuse_attempts", 1)
     v.need("event_id_reuse_attempts:ics20_withdrawal", 1)
     v.need("withdrawals_honoured:ics20_withdrawal", 1)
+    v.need("bridge_transfer_to_the_source_bridge_itself_executed", 2)
 
 
 def check(v, hists):
@@ -66,6 +67,8 @@ def check(v, hists):
             if not (touches or new_deps):
                 continue
             v.evaluations += 1
+            if any(a["kind"] == "bridge_transfer" and a.get("to") == a.get("bridge") for a in acts):
+                v.saw("bridge_transfer_to_the_source_bridge_itself_executed")
             act = chainlog.actual_effects(o.diff)
             per = collections.Counter()
             for d in new_deps:
@@ -84,6 +87,13 @@ def check(v, hists):
                 # plain transfers to a bridge account credit it without a deposit (allowed); they are not backing
                 plain_in = sum(int(a["amount"]) for a in acts if a["kind"] == "transfer" and a.get("to") == bridge and a.get("asset") == asset)
                 credited -= plain_in
+                if o.signer == bridge:
+                    # the bridge account signs itself (it is its own withdrawer): it also pays this transaction's fees, and what it
+                    # locks into other bridges, out of the same balance
+                    for k, ch in o.diff.items():
+                        if k == "~fees/" + asset:
+                            debits += int(ch[1] or 0) - int(ch[0] or 0)
+                    debits += sum(int(a["amount"]) for a in acts if a["kind"] == "bridge_lock" and a.get("asset") == asset and a.get("to") != bridge)
                 if credited + debits != amount:
                     v.violate("C04/deposit-not-backed-by-equal-credit", "deposits of %d to bridge %s but the bridge account was credited %d in the same transaction" % (amount, bridge, credited + debits), wit)
             if len(dep_events) != len(new_deps):
